@@ -144,6 +144,13 @@ def run(p: Program, rep: Report, tier: str) -> None:
             pr = proofs.get(pk[0])
             if pr is None:
                 rep.undecide("R15.4", f"hold-back via self.{pk[0]}.search(buffer): pattern not foldable")
+            elif not pr[0]:
+                from .. import rx as _rx
+                wtxt = _rx.show(pr[1], True) if pr[1] is not None else "a match that does not start with a line break"
+                rep.violation("R15.4", construct(ne, text=f"pending pattern self.{pk[0]} misses a delimiter prefix"), where(ne, node),
+                              f"the partial-delimiter pattern self.{pk[0]} does not match {wtxt}, which is the beginning of a delimiter: when a chunk ends there the partial delimiter goes out as "
+                              "field data and the real delimiter is never seen - two parts merge, so the part count and the field bytes counted against the limits depend on the chunking "
+                              "(a form over max_form_parts is accepted for some chunkings)", positive=True)
             elif pr[2] is None:
                 rep.violation("R15.4", construct(ne, text=f"unbounded pending pattern self.{pk[0]}"), where(ne, node), f"the partial-delimiter pattern self.{pk[0]} matches arbitrarily long texts that do not contain the delimiter: the hold-back is not bounded")
             else:
